@@ -24,7 +24,7 @@ import (
 // LockEvent is one entry of the log recorded by the schedule executor.
 type LockEvent struct {
 	Seq  int    `json:"seq"`
-	Kind string `json:"kind"` // spawn | proof | signal | exit | observe | fault
+	Kind string `json:"kind"` // spawn | proof | signal | exit | observe | fault | pause | resume
 	Proc int    `json:"proc"` // process index within the schedule (not for observe)
 	Pid  int    `json:"pid,omitempty"`
 
@@ -34,6 +34,7 @@ type LockEvent struct {
 	Opens  bool   `json:"opens,omitempty"`  // the command opens the cache
 	Benign bool   `json:"benign,omitempty"` // expected to exit 0 when nobody holds the cache
 	Delays string `json:"delays,omitempty"` // VERIF_HOOK_DELAYS of the process
+	Uid    int    `json:"uid,omitempty"`    // real uid of the process as read from /proc after the start (0 = the harness's own, root)
 
 	// proof: the process showed that it got past the lock ("building": it printed the
 	// cache-build banner, which comes after lock(); "ready": the web UI printed its
@@ -49,6 +50,13 @@ type LockEvent struct {
 	Stderr   string `json:"stderr,omitempty"`
 	// Unexpected marks the exit of a long-lived process nobody signalled.
 	Unexpected bool `json:"unexpected,omitempty"`
+
+	// pause: the harness stopped the process (SIGSTOP, every thread seen stopped in /proc) and
+	// THEN read the lock file (LockExists/LockContent): the state cannot be changed by the
+	// process itself until the resume event (recorded BEFORE SIGCONT is sent). A process paused
+	// while the lock file exists and is empty, no other process of the schedule being alive and
+	// the file being absent before its spawn, is a live process between its exclusive creation
+	// of the lock file and the write of its pid.
 
 	// observe
 	Tag         string            `json:"tag,omitempty"`
@@ -81,6 +89,12 @@ type LockStats struct {
 	KillPoints         map[string]int
 	Classes            map[string]int
 	Unresolved         int
+	// created window: a live process stopped between the exclusive creation of the lock file and the pid write
+	CreatedWindows        int            // processes proven to be parked there
+	CreatedWindowAttempts int            // open attempts made entirely while such a process was parked
+	CreatedWindowOutcomes map[string]int // what became of them (refused/failed/opened)
+	CreatedWindowChecks   int            // observations of the lock file made while the creator was parked
+	CrossUidAttempts      int            // resolved attempts made under another uid than the proven holder's
 }
 
 type lockProc struct {
@@ -88,7 +102,10 @@ type lockProc struct {
 	class, argv   string
 	opens, benign bool
 	delays        string
+	uid           int
 	spawn         int
+	created       int // seq of the pause event that proved p parked between lock creation and pid write
+	resumed       int // seq of the resume event ending that pause (0 = never resumed)
 	building      int // seq of the "building" proof, 0 = none
 	ready         int
 	lockSeen      int // first observation at which the lock file held this pid
@@ -163,6 +180,18 @@ func (p *lockProc) opened() bool {
 	return p.firstProof() > 0 || (p.exit > 0 && p.exitCode == 0 && p.killedBy == "")
 }
 
+// howOpened describes the evidence for opened().
+func (p *lockProc) howOpened() string {
+	if fp := p.firstProof(); fp > 0 {
+		kind := "cache-build banner"
+		if fp == p.ready {
+			kind = "ready line"
+		}
+		return fmt.Sprintf("%s at event %d", kind, fp)
+	}
+	return "exit status 0"
+}
+
 func (p *lockProc) howEnded() string {
 	if p.exit == 0 {
 		return "still-running"
@@ -194,7 +223,7 @@ func excerpt(s string) string {
 
 // CheckLockLog runs the model over one schedule's event log.
 func CheckLockLog(events []LockEvent) ([]LockFinding, LockStats) {
-	st := LockStats{OpensAfter: map[string]int{}, KillPoints: map[string]int{}, Classes: map[string]int{}}
+	st := LockStats{OpensAfter: map[string]int{}, KillPoints: map[string]int{}, Classes: map[string]int{}, CreatedWindowOutcomes: map[string]int{}}
 	var out []LockFinding
 	find := func(seq int, key, what string) { out = append(out, LockFinding{Key: key, What: what, Seq: seq}) }
 
@@ -209,18 +238,29 @@ func CheckLockLog(events []LockEvent) ([]LockFinding, LockStats) {
 		seq   int
 		class string
 	}
-	var faults []fault          // crash residues put in place by the harness (Class says which)
-	windowDelaySince := lockInf // first spawn with a cache.lock.window delay
+	var faults []fault           // crash residues put in place by the harness (Class says which)
+	windowDelaySince := lockInf  // first spawn with a cache.lock.window delay
+	createdDelaySince := lockInf // first spawn with a cache.lock.created delay
+	crossUidSince := lockInf     // first spawn under another uid than an earlier spawn of the schedule
+	firstUid := -1
 	for _, e := range evs {
 		switch e.Kind {
 		case "spawn":
-			p := &lockProc{id: e.Proc, pid: e.Pid, class: e.Class, argv: e.Argv, opens: e.Opens, benign: e.Benign, delays: e.Delays, spawn: e.Seq}
+			p := &lockProc{id: e.Proc, pid: e.Pid, class: e.Class, argv: e.Argv, opens: e.Opens, benign: e.Benign, delays: e.Delays, uid: e.Uid, spawn: e.Seq}
 			procs[e.Proc] = p
 			byPid[e.Pid] = p
 			order = append(order, p)
 			st.Classes[e.Class]++
 			if strings.Contains(e.Delays, "cache.lock.window") && e.Seq < windowDelaySince {
 				windowDelaySince = e.Seq
+			}
+			if strings.Contains(e.Delays, "cache.lock.created") && e.Seq < createdDelaySince {
+				createdDelaySince = e.Seq
+			}
+			if firstUid < 0 {
+				firstUid = e.Uid
+			} else if e.Uid != firstUid && e.Seq < crossUidSince {
+				crossUidSince = e.Seq
 			}
 		case "proof":
 			if p := procs[e.Proc]; p != nil {
@@ -242,6 +282,16 @@ func CheckLockLog(events []LockEvent) ([]LockFinding, LockStats) {
 			}
 		case "fault":
 			faults = append(faults, fault{e.Seq, e.Class})
+		case "pause":
+			if p := procs[e.Proc]; p != nil && p.created == 0 && p.exit == 0 && p.firstProof() == 0 &&
+				e.LockExists && e.LockContent == "" && soleLiveCreator(evs, p.id, p.spawn, e.Seq) {
+				p.created = e.Seq
+				st.CreatedWindows++
+			}
+		case "resume":
+			if p := procs[e.Proc]; p != nil && p.created > 0 && p.resumed == 0 {
+				p.resumed = e.Seq
+			}
 		case "observe":
 			observes = append(observes, e)
 			if e.LockExists {
@@ -256,8 +306,13 @@ func CheckLockLog(events []LockEvent) ([]LockFinding, LockStats) {
 	st.Processes = len(order)
 	st.Observations = len(observes)
 	tagAt := func(seq int) string {
-		if windowDelaySince < seq {
+		switch {
+		case windowDelaySince < seq:
 			return "toctou-window"
+		case createdDelaySince < seq:
+			return "created-window"
+		case crossUidSince < seq:
+			return "cross-uid"
 		}
 		return "plain"
 	}
@@ -331,6 +386,35 @@ func CheckLockLog(events []LockEvent) ([]LockFinding, LockStats) {
 			}
 			return false
 		}
+		// creators: live processes proven parked between the exclusive creation of the lock file
+		// and the pid write during the whole attempt. The statement does not say what an opener is
+		// told at that moment (the cache is not open yet): every failure is accepted. What can be
+		// judged is the outcome "both were granted the cache".
+		var creators []*lockProc
+		for _, p := range order {
+			if p != a && p.created > 0 && p.created < a.spawn && p.pauseEnd() > openEnd {
+				creators = append(creators, p)
+			}
+		}
+		if len(definite) == 0 && len(creators) > 0 {
+			c := creators[0]
+			st.CreatedWindowAttempts++
+			switch {
+			case a.opened():
+				st.CreatedWindowOutcomes["opened"]++
+				if c.firstProof() > 0 {
+					find(openEnd, "two-holders:"+tagAt(openEnd),
+						fmt.Sprintf("%s opened the cache (%s) while the live %s was stopped between its exclusive creation of the lock file and the write of its pid (events %d..%d); "+
+							"after being resumed that process went on to open the cache as well (proof at event %d): both were granted the cache", a, a.howOpened(), c, c.created, c.pauseEnd(), c.firstProof()))
+				}
+			case a.refusedBy() > 0:
+				st.CreatedWindowOutcomes["refused naming pid"]++
+			case a.killedBy != "":
+				st.CreatedWindowOutcomes["killed"]++
+			default:
+				st.CreatedWindowOutcomes["failed: "+lastLine(a.stderr)]++
+			}
+		}
 		refused := a.refusedBy()
 		lastEnd := "none"
 		{
@@ -349,6 +433,9 @@ func CheckLockLog(events []LockEvent) ([]LockFinding, LockStats) {
 		switch {
 		case len(definite) > 0:
 			h := definite[0]
+			if a.uid != h.uid {
+				st.CrossUidAttempts++
+			}
 			switch {
 			case a.opened():
 				find(openEnd, "two-holders:"+tagAt(openEnd),
@@ -458,6 +545,29 @@ func CheckLockLog(events []LockEvent) ([]LockFinding, LockStats) {
 			twoHoldersAt = f.Seq
 		}
 	}
+	// F4c: the lock file created by a live process that is stopped before it could write its pid
+	// is the lock of a live process: while it is parked nobody may remove or replace it (the
+	// parked process itself cannot touch it).
+	for k := range observes {
+		o := &observes[k]
+		if o.Seq > twoHoldersAt {
+			continue
+		}
+		for _, p := range order {
+			if p.created == 0 || o.Seq < p.created || o.Seq > p.pauseEnd() {
+				continue
+			}
+			st.CreatedWindowChecks++
+			switch {
+			case !o.LockExists:
+				find(o.Seq, "live-lock-removed:"+tagAt(o.Seq),
+					fmt.Sprintf("at observation %d (%s) the live %s is stopped since event %d between its exclusive creation of .git/git-bug/lock and the write of its pid, but the lock file it created does not exist any more", o.Seq, o.Tag, p, p.created))
+			case o.LockContent != "":
+				find(o.Seq, "live-lock-overwritten:"+tagAt(o.Seq),
+					fmt.Sprintf("at observation %d (%s) the live %s is stopped since event %d between its exclusive creation of .git/git-bug/lock and the write of its pid, but the lock file now holds %q: its lock was replaced", o.Seq, o.Tag, p, p.created, o.LockContent))
+			}
+		}
+	}
 	for k := range observes {
 		o := &observes[k]
 		if o.Seq > twoHoldersAt {
@@ -491,6 +601,53 @@ func CheckLockLog(events []LockEvent) ([]LockFinding, LockStats) {
 		}
 	}
 	return out, st
+}
+
+// pauseEnd = the moment from which a parked creator may run again (resume, signal or exit).
+func (p *lockProc) pauseEnd() int {
+	e := p.end()
+	if p.resumed > 0 && p.resumed < e {
+		e = p.resumed
+	}
+	return e
+}
+
+// soleLiveCreator says that in [spawn, at] process id is the only process of the schedule that is
+// alive (every other one was reaped before spawn or spawned after at), that no fault put a lock
+// file in place, and that the last observation before spawn saw no lock file: the lock file seen
+// at `at` was then created by that process.
+func soleLiveCreator(evs []LockEvent, id, spawn, at int) bool {
+	exitOf := map[int]int{}
+	for _, e := range evs {
+		if e.Kind == "exit" {
+			exitOf[e.Proc] = e.Seq
+		}
+	}
+	absentBefore := false
+	for _, e := range evs {
+		switch {
+		case e.Kind == "spawn" && e.Proc != id && e.Seq < at:
+			if x := exitOf[e.Proc]; x == 0 || x > spawn {
+				return false
+			}
+		case e.Kind == "fault" && e.Seq < at:
+			return false
+		case e.Kind == "observe" && e.Seq < spawn:
+			absentBefore = !e.LockExists
+		}
+	}
+	return absentBefore
+}
+
+func lastLine(s string) string {
+	s = excerpt(s)
+	if i := strings.LastIndexByte(s, '\n'); i >= 0 {
+		s = s[i+1:]
+	}
+	if len(s) > 80 {
+		s = s[:80]
+	}
+	return s
 }
 
 func proofKind(p *lockProc) string {
